@@ -441,6 +441,32 @@ func (m *c15gMachine) checkSelect(slot int, strict bool, ex *c15gNode, foreignEx
 	}
 	if c15gIsMin(m.policy.Policy) {
 		m.checkPickMin(what, first, g, lat, ex)
+		// sticky choice: excluding a node other than the current choice of the set
+		// that serves the request must not change the answer.
+		if ex != nil || foreignEx {
+			best, bestLat := m.g.MustGetAliveDialerSet(m.types[first]).GetMinLatency(nil)
+			if best != nil && (foreignEx || ex.d != best) {
+				if d != best {
+					m.fatalf("%s returned %s although the excluded node is not the current choice %s of %s: the choice may only change for the licensed reasons, not because some other node is excluded", what, g.name, m.nameOf(best), c15TypeNames[first])
+				}
+				b := m.byD[best]
+				bp, bm := m.pub(b, first)
+				if bm && lat != bestLat {
+					m.fatalf("%s returned latency %v, the unexcluded selection of the same node returns %v", what, lat, bestLat)
+				}
+				m.class("sticky_under_other_exclusion")
+				for _, e := range m.aliveOf(first, ex) {
+					if e == b {
+						continue
+					}
+					if ep, em := m.pub(e, first); !em || (bm && ep < bp) {
+						m.class("sticky_with_rival")
+						m.ntHit = true
+						break
+					}
+				}
+			}
+		}
 	}
 }
 
